@@ -39,6 +39,13 @@ ModelTrain ==       \* model.train(): allowed whenever the loop is in its traini
   /\ mtrain' = TRUE
   /\ UNCHANGED <<cfg, phase, ep, bi, vb, gmode, ngdepth, steps, fwd, zeroed, bwdone, pver, sver, hlen>>
 
+\* a user callback (on_train_epoch) runs at the start of the epoch and may leave the model in any mode,
+\* e.g. after evaluating it; the loop must re-assert training mode before the first batch
+CallbackEval ==
+  /\ phase = "train" /\ bi = 0 /\ ~fwd /\ ~zeroed /\ ~bwdone
+  /\ mtrain' = FALSE
+  /\ UNCHANGED <<cfg, phase, ep, bi, vb, gmode, ngdepth, steps, fwd, zeroed, bwdone, pver, sver, hlen>>
+
 Forward(statsMove) ==
   /\ phase = "train" /\ bi < cfg.NB /\ ~fwd /\ ~bwdone
   /\ mtrain /\ gmode                       \* computed with the model in training mode, gradients tracked
@@ -114,7 +121,7 @@ TestEnd ==
   /\ UNCHANGED <<cfg, ep, bi, vb, mtrain, gmode, ngdepth, steps, fwd, zeroed, bwdone, pver, sver, hlen>>
 
 Next ==
-  \/ EpochBegin \/ ModelTrain \/ ZeroGrad \/ Backward \/ ValBegin \/ ModelEval \/ NoGradEnter \/ ValForward \/ NoGradExit
+  \/ EpochBegin \/ ModelTrain \/ CallbackEval \/ ZeroGrad \/ Backward \/ ValBegin \/ ModelEval \/ NoGradEnter \/ ValForward \/ NoGradExit
   \/ EpochEnd \/ FitEnd \/ TestBegin \/ TestEnd
   \/ \E b \in BOOLEAN : Forward(b) \/ Step(b)
 
@@ -124,7 +131,7 @@ Fair ==
   /\ WF_vars(\E b \in BOOLEAN : Forward(b)) /\ WF_vars(\E b \in BOOLEAN : Step(b)) /\ WF_vars(ModelTrain)
 \* fit alone (no test) for liveness
 FitNext ==
-  \/ EpochBegin \/ ModelTrain \/ ZeroGrad \/ Backward \/ ValBegin \/ ModelEval \/ NoGradEnter \/ ValForward \/ NoGradExit \/ EpochEnd
+  \/ EpochBegin \/ ModelTrain \/ CallbackEval \/ ZeroGrad \/ Backward \/ ValBegin \/ ModelEval \/ NoGradEnter \/ ValForward \/ NoGradExit \/ EpochEnd
   \/ \E b \in BOOLEAN : Forward(b) \/ Step(b)
 FitSpec == Init /\ [][FitNext]_vars /\ Fair
 
